@@ -34,7 +34,7 @@ Print Assumptions C09_record_roundtrip.
    that is the parse of some name and not the triple of empty strings *)
 Theorem C09_record_roundtrip_library_types : forall (sch : xschema) r,
   xtyped cust cenc cdec cwf sch r -> C9G.keys_distinct xkind sch ->
-  C9G.decode xkind (xvalue cust) (xzero cust czero) (xdecode cust cdec) sch
+  C9G.decode xkind (xvalue cust) (xzero cust C9C.czero) (xdecode cust cdec) sch
     (C9G.values (C9G.convert xkind (xvalue cust) (xmarshal cust cenc) sch r {| C9G.order := []; C9G.values := [] |})) = Some r.
 Proof. exact C09_roundtrip_with_library_types. Qed.
 Print Assumptions C09_record_roundtrip_library_types.
@@ -57,7 +57,7 @@ Proof. exact C9.C09_written. Qed.
 (* for the functions the tie executes (regenerated descriptors): a required field that is absent is an error;
    unknown fields of the embedded paragraph keep their relative order and come first *)
 Theorem C09_required_missing_is_error : forall sch p f, In f (gschema sch) -> C9G.frequired fd f = true ->
-  C9G.lookup (C9G.fkey fd f) p = None -> C9G.decode fd cval czero cdecode (gschema sch) p = None.
+  C9G.lookup (C9G.fkey fd f) p = None -> C9G.decode fd cval CX.czero cdecode (gschema sch) p = None.
 Proof. exact CX_required_missing. Qed.
 Theorem C09_unknown_fields_pass_through : forall sch r found,
   filter (fun k => negb (C9G.mem k (map (C9G.fkey fd) (gschema sch)))) (C9G.order (C9G.convert fd cval cmarshal (gschema sch) r found))
